@@ -165,3 +165,42 @@ Definition event_prefix (evs full : list event) : Prop :=
         /\ full = common ++ EvAttachment f :: more /\ att_cut c f).
 
 Definition is_prefix {A} (a b : list A) : Prop := exists more, b = a ++ more.
+
+(* ---------- damage (C07) ---------- *)
+(* the chunk k with its stored payload replaced; every header field is unchanged *)
+Definition with_records (k : chunk) (r : bytes) : chunk :=
+  {| k_start := k_start k; k_end := k_end k; k_usize := k_usize k; k_crc := k_crc k;
+     k_comp := k_comp k; k_records := r |}.
+
+(* what a 32-bit checksum cannot exclude: the decoder turns the damaged payload into different
+   bytes of the same length and the same CRC-32 *)
+Definition crc_collision (lo : lopts) (dstream : doracle) (k : chunk) (recs' : bytes) : Prop :=
+  exists data extra,
+    fst (chunk_stream lo dstream (k_comp k) recs' None) = data ++ extra
+    /\ data <> chunk_plain lo dstream k
+    /\ blen data = blen (chunk_plain lo dstream k)
+    /\ crc32 data = crc32 (chunk_plain lo dstream k).
+
+(* one content byte of an attachment replaced by a different byte: a data byte, a byte of the
+   name or the media type, or one of the 8 bytes of the log time / create time.  The three
+   length prefixes (name length, media-type length, data size) are NOT covered: a change there
+   re-frames the record. *)
+Definition att_with (a : attachment) (lt ct : N) (name media : bytes) : attachment :=
+  {| a_log := lt; a_create := ct; a_name := name; a_media := media; a_size := a_size a; a_data := a_data a |}.
+
+Inductive att_content_flip (a : attachment) (data : bytes) : attachment -> bytes -> Prop :=
+| ACF_data d1 x y d2 :
+    data = d1 ++ x :: d2 -> x <> y ->
+    att_content_flip a data (att_with a (a_log a) (a_create a) (a_name a) (a_media a)) (d1 ++ y :: d2)
+| ACF_name n1 x y n2 :
+    a_name a = n1 ++ x :: n2 -> x <> y ->
+    att_content_flip a data (att_with a (a_log a) (a_create a) (n1 ++ y :: n2) (a_media a)) data
+| ACF_media m1 x y m2 :
+    a_media a = m1 ++ x :: m2 -> x <> y ->
+    att_content_flip a data (att_with a (a_log a) (a_create a) (a_name a) (m1 ++ y :: m2)) data
+| ACF_log q1 x y q2 :
+    u64 (a_log a) = q1 ++ x :: q2 -> x <> y ->
+    att_content_flip a data (att_with a (unle (q1 ++ y :: q2)) (a_create a) (a_name a) (a_media a)) data
+| ACF_create q1 x y q2 :
+    u64 (a_create a) = q1 ++ x :: q2 -> x <> y ->
+    att_content_flip a data (att_with a (a_log a) (unle (q1 ++ y :: q2)) (a_name a) (a_media a)) data.
